@@ -2819,11 +2819,13 @@ func (dsc *dataStoreCommand) intersectWorker(firstKey string, keyNames ...string
 
 func (dsc *dataStoreCommand) intersectWithLimitWorker(limit int, keyNames ...string) (d *redisDict, wrongType bool) {
 	sets := make([]*redisDict, 0, len(keyNames))
+	missing := false
 	for _, keyName := range keyNames {
 		sk, objExists := dsc.getKeyObjectUnlocked(keyName)
 		if !objExists {
-			d = newRedisDict()
-			return
+			// an absent key is an empty set; the remaining keys are still type-checked
+			missing = true
+			continue
 		}
 
 		m := sk.getSet()
@@ -2836,7 +2838,7 @@ func (dsc *dataStoreCommand) intersectWithLimitWorker(limit int, keyNames ...str
 	}
 
 	d = newRedisDict()
-	if len(sets) < 2 {
+	if missing || len(sets) == 0 {
 		return
 	}
 
